@@ -553,6 +553,7 @@ func run(sc *h.Scenario) *h.Rec {
 			expectClose = true
 		}
 	}
+	strayPong := false
 	rec.Log("Reset", "kind", sc.Kind, "p", h.Ev{"n": d.n, "mode": mode, "holdPong": d.holdPong, "ptimeout": expectClose, "kinds": d.kind[1:]})
 	for t := 1; t <= d.n; t++ {
 		d.ctxs[t], d.cancels[t] = context.WithCancel(context.Background())
@@ -675,12 +676,23 @@ func run(sc *h.Scenario) *h.Rec {
 			// a response with an id the client never issued; its type is the response type of some caller's kind
 			k := d.kind[1+(i%d.n)]
 			rec.Log("BSend", "rid", st.Seq, "tag", -1, "how", "spur")
+			if st.Mode == "pong" {
+				// a Pong nobody asked for: it must not be taken for the answer to the outstanding keep-alive ping
+				strayPong = true
+				d.bwrite(&message.Pong{RequestID: message.RequestID(uint32(st.Seq))})
+				continue
+			}
 			d.bwrite(response(k, uint32(st.Seq), -1, stamp(uint32(st.Seq), -1, "spur")))
 		case "ptimeout":
 			// the pong is withheld until the client's ping deadline expires and its keep-alive loop closes the connection
 			rec.Log("PingDeadline")
 			if !d.waitCond(pingTo+d.wd, func() bool { return d.cliClosed }) {
-				rec.Log("Inconclusive", "why", "client did not close after the ping deadline")
+				if strayPong {
+					// the only thing that arrived for the keep-alive was a Pong with a foreign id, and the deadline (plus the watchdog) has passed
+					rec.Log("PingNotTimedOut")
+				} else {
+					rec.Log("Inconclusive", "why", "client did not close after the ping deadline")
+				}
 			}
 			if d.sync {
 				for t := 1; t <= d.n; t++ {
